@@ -165,6 +165,8 @@ def run_script(run, case):
         else:
             client = IO.make_client(kind, **kw)
         client.connect()
+        if case.get('tid_start') is not None:
+            client.transaction.tid = case['tid_start']       # a client that has been in use for a long time: the id counter is about to wrap
         base = 0
         if warm:
             # a client that has already completed a transaction (its framer, transaction table and state are no longer pristine)
@@ -179,7 +181,7 @@ def run_script(run, case):
                 run.count('warmup_failed')
                 return True
             run.count('warm_scripts')
-        t0, ops0 = env.clock.now, env.ops
+        t0, ops0, tr0 = env.clock.now, env.ops, len(env.trace)
         req = A.build(m, unit=UNIT)
         result, exc = None, None
         try:
@@ -198,7 +200,11 @@ def run_script(run, case):
         backoff = sum(0.3 * 2 ** i for i in range(R + 2))
         bound = (2 + R) * 3 * TIMEOUT + backoff + 1.0
         if 'unbounded' not in kinds:
-            if exc is not None and not isinstance(exc, ConnectionException):
+            # "failure to establish the connection excepted": a ConnectionException is in order only when a connection attempt
+            # made during this call failed - not when an established connection was lost in the middle of the transaction
+            tr = [e[1] for e in env.trace[tr0:]]
+            connect_failed = tr.count('connect') > tr.count('connected')
+            if exc is not None and not (isinstance(exc, ConnectionException) and connect_failed):
                 kinds['raised:%s' % type(exc).__name__] = 'execute raised %r' % (exc,)
             if elapsed > bound:
                 kinds['too-long'] = 'transaction took %.2f virtual seconds, bound %.2f' % (elapsed, bound)
@@ -338,8 +344,11 @@ def run(run):
                 case = {'client': kind, 'cfg': cfg, 'script': list(names), 'm': m, 'bseed': idx, 'warm': warm}
                 if idx % 5 == 2 and cfg['retries'] >= 1:
                     case['via_defaults'] = True          # (retries=0 through Defaults is the recorded `or 1` finding either way)
+                if idx % 7 == 4:
+                    case['tid_start'] = 0xFFFF - (idx // 7) % 3
+                    run.count('scripts_across_the_tid_wrap')
                 ok = run_script(run, case)
-                run.case(h64((kind, tuple(sorted(cfg.items())), names, m['fc'], warm)), any(n not in ('own',) for n in names),
+                run.case(h64((kind, tuple(sorted(cfg.items())), names, m['fc'], warm, case.get('tid_start'))), any(n not in ('own',) for n in names),
                          sample={'client': kind, 'config': cfg, 'script': list(names), 'request_fc': m['fc'], 'warm_client': warm, 'verdict': 'bounded, result, recovered' if ok else 'differs'},
                          sample_class=(kind, cfg['retries'], warm, ok))
     # the UDP client's default configuration has no timeout at all
